@@ -77,7 +77,9 @@ class World:
 
     def recording_check(self, index, row_outcomes=(CHECK_OK, CHECK_BAD), end_outcomes=(CHECK_OK, CHECK_BAD), name=None):
         name = name or "c%d" % index
-        check = Obj(self.model.cls("cutplace.checks.AbstractCheck"), {"_description": name}, label=name)
+        # the descriptions sort the other way round than the declaration order: checks run in the order they are declared
+        description = "%s (%s)" % (chr(ord("z") - (index % 26)), name)
+        check = Obj(self.model.cls("cutplace.checks.AbstractCheck"), {"_description": description}, label=name)
         world = self
 
         @stub
